@@ -15,7 +15,7 @@ from vlib import Infra
 LEVEL = "model_checking"
 
 
-def driver(ck, test, rows, name, timeout=600):
+def driver(ck, test, rows, name, timeout=240):
     """runs a driver that may be killed by the code under test; returns (trace path, result dict) or reports the crash"""
     tr = os.path.join(ck.tmp, name + ".ndjson")
     o2 = os.path.join(ck.tmp, name + "_out.json")
@@ -47,12 +47,14 @@ def run(ck):
     rh = ck.tlc("contain", "HostileCases", "HostileCases.cfg", timeout=900, label="hostile SDP / connection cases")
     ck.model(rh)
     hostile = rh.printed("@H")
-    if len(faults) < 300 or len(hostile) < 35:
+    if len(faults) < 600 or len(hostile) < 35:
         raise Infra("case generation produced %d/%d" % (len(faults), len(hostile)))
     reps = 1 if q else 5
-    traces, injected = [], 0
+    traces, injected, crashed = [], 0, False
     for k in range(reps):
         tr, res = driver(ck, "^TestContain$", faults, "c07_%d" % k)
+        if not tr:
+            crashed = True
         if tr:
             traces.append(tr)
             injected += res["injected"]
@@ -69,7 +71,7 @@ def run(ck):
         if rt.distinct != n + 1:
             raise Infra("trace validation consumed %d of %d" % (rt.distinct - 1, n))
         bad += rt.printed("@BAD")
-    if traces and injected < 3000 * reps and not bad:
+    if traces and injected < 3000 * reps and not bad and not crashed:
         raise Infra("vacuous: only %d malformed packets injected" % injected)
     ck.cov["traces_validated_against_impl"] += (len(faults) * reps + len(hostile))
     ck.cov["cases"] = {"packet_fault_cases": len(faults), "repetitions": reps, "malformed_packets_injected": injected, "hostile_cases": len(hostile), "records": nrec}
